@@ -102,9 +102,29 @@ def p_at(I, a, n):
 
 
 def p_append(I, a, n):
+    from .objects import elem_term, as_slist
     seq, x = a
+    if seq.kind in ('clist', 'tuple'):
+        raise OutOfSubset("append() on a concrete list in a spec")
     lt = TY.list_theory(TY.smt_sort(seq.extra['elem']))
-    return SV('slist', lt.lapp(seq.t, x.t), extra=seq.extra)
+    return SV('slist', lt.lapp(seq.t, elem_term(I, seq.extra['elem'], x)), extra={k: v for k, v in seq.extra.items() if k != 'backref'})
+
+
+def p_mset(I, a, n):
+    """mset(d, k, v): the local dict d with key k set to v"""
+    from .objects import mdict_key, elem_term
+    d, k, v = a
+    kt = mdict_key(I, d, k, n)
+    return SV('mdict', {'has': z3.Store(d.t['has'], kt, z3.BoolVal(True)),
+                        'val': z3.Store(d.t['val'], kt, elem_term(I, d.extra['elem'], v, n))}, extra=d.extra)
+
+
+def p_mdel(I, a, n):
+    """mdel(d, k): the local dict d without key k"""
+    from .objects import mdict_key
+    d, k = a
+    kt = mdict_key(I, d, k, n)
+    return SV('mdict', {'has': z3.Store(d.t['has'], kt, z3.BoolVal(False)), 'val': d.t['val']}, extra=d.extra)
 
 
 def p_is_int_valued(I, a, n):
@@ -187,4 +207,4 @@ def p_src_R(I, a, n):
 PRIMS = {'cap': p_cap, 'comparable': p_comparable, 'coerce_like': p_coerce_like, 'coercible': p_coercible, 'src_T': p_src_T, 'src_R': p_src_R, 'be': p_be, 'le': p_le, 'sl': p_sl, 'cat': p_cat, 'low': p_low, 'shr': p_shr, 'pow2': p_pow2, 'tb': p_tb,
          'tl': p_tl, 'bat': p_bat, 'rpow': p_rpow, 'rpow2': p_rpow2, 'bfind': p_bfind, 'band': p_band, 'bor': p_bor,
          'toreal': p_toreal, 'i2r': p_toreal, 'at': p_at, 'append': p_append, 'is_int_valued': p_is_int_valued,
-         'decode': p_decode, 'decodable': p_decodable, 'cls_is': p_cls_is, 'warned': p_warned}
+         'decode': p_decode, 'decodable': p_decodable, 'cls_is': p_cls_is, 'warned': p_warned, 'mset': p_mset, 'mdel': p_mdel}
